@@ -1,1 +1,23 @@
-From PM Require Import Model.Fill.
+(* C15 — content filling and wrapper search are sound (theorems) and complete (evaluated per case
+   against independent closures by Corr.C15.holds; not yet a theorem). *)
+From Coq Require Import List Bool Arith.
+From PM Require Import Model.Data Model.Mark Model.Tree Model.Step Model.Fill Proofs.FillProofs.
+Import ListNotations.
+
+(* over every deterministic automaton table (what the compiler produces; [det_schema] is a boolean check):
+   the node types fill_before proposes are generatable and make the combined sequence match — up to a
+   valid end when asked *)
+Theorem C15_fill_before_sound : forall s, det_schema s = true -> forall q after te st tys,
+  fill_before_types s q after te st = Some tys ->
+  forallb (generatable s) tys = true /\
+  exists q1, match_types s q tys = Some q1 /\ finished s after te st q1 = true.
+Proof. exact fill_before_types_sound. Qed.
+Print Assumptions C15_fill_before_sound.
+
+(* the wrapper chain find_wrapping returns really fits: the first wrapper is allowed at the position, each
+   wrapper may hold the next as its only child, the innermost accepts the target as first child, none is a
+   leaf or needs attributes *)
+Theorem C15_find_wrapping_sound : forall s, det_schema s = true -> forall q target chain,
+  find_wrapping s q target = Some chain -> chain_fits s q chain target true.
+Proof. exact find_wrapping_sound. Qed.
+Print Assumptions C15_find_wrapping_sound.
